@@ -33,6 +33,7 @@ type loopRT struct {
 	decrHead Term
 	props   []string
 	quantCand bool
+	targeted map[string][]Term // heaps forgotten key-wise at the loop head (no frame candidates needed)
 }
 
 func (f *Frame) loopRT(h int) *loopRT {
@@ -93,6 +94,16 @@ func (f *Frame) loopHeader(li *loopInfo) {
 			f.instrEffects(in, eff, seen, 0)
 		}
 	}
+	// 2a. heaps whose writes in the body all go to keys that are fixed while the loop runs: forget those keys only
+	targeted := map[string][]Term{}
+	if !eff.all {
+		for k := range eff.names {
+			if ks, ok := f.loopWriteTargets(li, k, eff); ok {
+				targeted[k] = ks
+			}
+		}
+	}
+	rt.targeted = targeted
 	// 3. candidates
 	f.genCandidates(li, rt, eff)
 	for _, lc := range rt.cands {
@@ -137,6 +148,16 @@ func (f *Frame) loopHeader(li *loopInfo) {
 		if e.readonlyHeaps[k] {
 			// a field that is only written by its constructors on fresh objects: objects that exist at the loop head
 			// keep their value (objects allocated inside the loop are simply unknown afterwards, which is sound)
+			continue
+		}
+		if ks, ok := targeted[k]; ok {
+			h := e.heap(f.st, k, eff.names[k])
+			for _, key := range ks {
+				h = store(h, key, e.havoc(k+"@loopkey", arrayElem(eff.names[k])))
+			}
+			if len(ks) > 0 {
+				f.st.heaps[k] = e.define(k+"@loop", h)
+			}
 			continue
 		}
 		f.st.heaps[k] = e.havoc(k+"@loop", eff.names[k])
@@ -441,6 +462,9 @@ func (f *Frame) genCandidates(li *loopInfo, rt *loopRT, eff *effects) {
 		if !strings.HasPrefix(hn, "HE_") {
 			continue
 		}
+		if _, t := rt.targeted[hn]; t {
+			continue
+		}
 		hn, hs := hn, hs
 		regs, ok := f.writtenRegions(li, hn)
 		if !ok {
@@ -461,6 +485,29 @@ func (f *Frame) genCandidates(li *loopInfo, rt *loopRT, eff *effects) {
 		rt.quantCand = true
 		e.quantCands = true
 	}
+	// (e) function-entry frame: when the function under contract has a modifies clause, everything that existed at
+	//     function entry may still hold its entry value at the loop head (true whenever the body only writes memory
+	//     allocated by this function); needed to discharge the frame obligations across a whole-heap havoc
+	if f.parent == nil && e.contract != nil && e.contract.HasMod && f.entry != nil {
+		for hn, hs := range eff.names {
+			if _, t := rt.targeted[hn]; t {
+				continue
+			}
+			if !(strings.HasPrefix(hn, "HE_") || strings.HasPrefix(hn, "HF_") || strings.HasPrefix(hn, "HP_")) {
+				continue
+			}
+			hn, hs := hn, hs
+			entryH := e.heap(f.entry, hn, hs)
+			wm0 := f.entry.wm
+			f.newCand(rt, "entry-frame:"+hn, func(ph map[*ssa.Phi]Value, st *State) (Term, bool) {
+				q := e.qvar()
+				qv := sym(q, SRef)
+				return Term{S: fmt.Sprintf("(forall ((%s (_ BitVec 64))) %s)", q, or(ult(wm0, qv), eq(sel(e.heap(st, hn, hs), qv), sel(entryH, qv))).S), Sort: SBool}, true
+			})
+			rt.quantCand = true
+			e.quantCands = true
+		}
+	}
 	// (c) frame candidates: regions of slices defined outside the loop stay unchanged
 	var hnames []string
 	for k := range eff.names {
@@ -471,6 +518,9 @@ func (f *Frame) genCandidates(li *loopInfo, rt *loopRT, eff *effects) {
 	for _, hn := range hnames {
 		hs := eff.names[hn]
 		hn := hn
+		if _, t := rt.targeted[hn]; t {
+			continue
+		}
 		switch {
 		case strings.HasPrefix(hn, "HE_"):
 			for _, ov := range outside {
@@ -784,22 +834,35 @@ func (f *Frame) bindLocal(env *SpecEnv, name string, v ssa.Value, st *State, kee
 		if _, bound := env.vars[name]; bound && keep {
 			return
 		}
+		if _, inMemory := env.vars["&"+name]; inMemory {
+			return // already bound to the variable's memory cell (map iteration order must not matter)
+		}
 		env.vars[name] = SpecVal{T: e.valTerm(pv, v.Type()), Typ: v.Type(), V: pv}
 		return
 	}
 	ptr := SpecVal{T: e.valTerm(pv, v.Type()), Typ: v.Type(), V: pv}
 	env.vars[name] = ptr
 	plain := name[1:]
-	if _, bound := env.vars[plain]; bound {
+	if _, isParam := f.paramNames()[plain]; isParam {
 		return
 	}
+	// a variable that lives in memory is read from memory: a value recorded when it was initialised would be stale
 	pt, ok := v.Type().Underlying().(*types.Pointer)
 	if !ok {
 		return
 	}
-	switch pt.Elem().Underlying().(type) {
+	switch su := pt.Elem().Underlying().(type) {
 	case *types.Struct:
-		env.vars[plain] = ptr
+		// the variable's current value: the struct assembled from its fields in state st
+		if st == nil || pv.Addr != nil {
+			env.vars[plain] = ptr
+			return
+		}
+		fs := make([]Term, su.NumFields())
+		for i := range fs {
+			fs[i] = e.loadAddr(st, e.fieldLoc(pt.Elem(), i, pv.T))
+		}
+		env.vars[plain] = SpecVal{T: e.mkStruct(pt.Elem(), fs), Typ: pt.Elem()}
 	case *types.Array:
 	default:
 		if a := f.ptrAddr(pv, v.Type()); a != nil && st != nil {
